@@ -1,6 +1,7 @@
 import OmplModel.Proofs.Heap
 import OmplModel.Proofs.HeapHole
 import OmplModel.Proofs.HeapPos
+import OmplModel.Proofs.HeapAudit
 /-!
 # C11 — the updatable heap always pops in order, whatever was removed or updated
 
@@ -172,5 +173,167 @@ example : ∃ e ∈ (reach ltNat [.insert 5, .insert 3, .insert 9]).arr.toList, 
     rw [h]; simp
   obtain ⟨e, he, heq⟩ := List.mem_map.mp hm
   exact ⟨e, he, by simpa using congrArg Prod.fst heq⟩
+
+/-! ## The heap's users: audit of a dumped heap array (engine "heapusers")
+
+`BinaryHeap` promises its order only to users that keep their side of the contract: after changing an
+element's key in place they call `update(handle)` (or `rebuild()`), with the key at its final value.
+The users named by the property's anchors (GridB's internal_/external_ heaps, the BIT*/AIT*/EIT* queues)
+are *not* modelled here; their discipline is observed: the harness dumps each user's underlying array after
+every operation and the dump is judged (a) by the property's own clauses evaluated on the implementation
+(top is a minimum of the current contents, popping a copy yields a non-decreasing sequence) and (b) by the
+model-side audits below.  What is proved: the audits decide the invariants all the theorems above are about;
+a true audit implies both clauses of the property; a false audit names a violated parent/child edge but need
+not (yet) show in the pop order; a key change without `update` breaks the heap; with `update` it cannot. -/
+
+/-- **the Bool audit decides the proved invariant** (`HeapInv` = `InvFrom _ _ 0`). -/
+theorem heapOrdered_iff_inv (lt : κ → κ → Bool) (a : Array (Elem κ)) :
+    heapOrdered lt a = true ↔ HeapInv lt a := heapOrdered_iff_inv' lt a
+
+/-- the position audit decides `PosSync` (every element's position field equals its slot). -/
+theorem posConsistent_iff_posSync (a : Array (Elem κ)) (pos : Array Nat) :
+    posConsistent a pos = true ↔ PosSync a pos := posConsistent_iff' a pos
+
+/-- `topIsMin` is the property's first clause, literally. -/
+theorem topIsMin_iff (lt : κ → κ → Bool) (a : Array (Elem κ)) :
+    topIsMin lt a = true ↔ ∀ i, (hi : i < a.size) → lt a[i].key (a[0]'(by omega)).key = false :=
+  topIsMin_iff' lt a
+
+/-- the audit never alarms on a heap that was only touched through its API. -/
+theorem reachable_audit_true {lt : κ → κ → Bool} (h : SWO lt) (ops : List (Op κ)) :
+    heapOrdered lt (reach lt ops).arr = true :=
+  (heapOrdered_iff_inv lt _).mpr (reachable_inv h ops).1
+
+/-- **a true audit implies clause 1**: the top of *any* array that passes the audit is a minimum of its contents. -/
+theorem audit_top_is_min {lt : κ → κ → Bool} (h : SWO lt) (a : Array (Elem κ)) (hA : heapOrdered lt a = true) :
+    topIsMin lt a = true ∧ ∀ i, (hi : i < a.size) → lt a[i].key (a[0]'(by omega)).key = false := by
+  have H := top_min h a ((heapOrdered_iff_inv lt a).mp hA)
+  exact ⟨(topIsMin_iff lt a).mpr H, H⟩
+
+/-- **a true audit implies clause 2**: the pop loop run on *any* array that passes the audit yields a permutation
+of its contents without inversion (the generalisation of `popAll_sorted_perm` from reachable heaps to audited
+dumps), and the driver's adjacent-pairs test `sortedB` says so. -/
+theorem audit_pops_sorted {lt : κ → κ → Bool} (h : SWO lt) (a : Array (Elem κ)) (hA : heapOrdered lt a = true) :
+    (popAll lt a).Perm a.toList ∧ Sorted lt (popAll lt a) ∧ sortedB lt (popAll lt a) = true := by
+  have H := (heapOrdered_iff_inv lt a).mp hA
+  have hs := drain_sorted h a.size a rfl H
+  exact ⟨drain_perm lt _ _ rfl, hs, sortedB_of_sorted lt _ hs⟩
+
+/-- `sortedB` (adjacent pairs, what the driver prints) is `Sorted` (all pairs) for a strict weak order. -/
+theorem sortedB_iff_sorted {lt : κ → κ → Bool} (h : SWO lt) (l : List (Elem κ)) :
+    sortedB lt l = true ↔ Sorted lt l := ⟨sorted_of_sortedB h l, sortedB_of_sorted lt l⟩
+
+/-- **what a false audit implies, precisely**: some element is smaller than its parent.  (It does *not* imply
+that the top is wrong or that this array pops out of order — `audit_false_yet_pops_sorted` — which is why the
+check's oracle judges the property's own clauses and uses the audit as the model-side tie and as the aim of a
+targeted search; it does mean the damage can surface after further operations — `bad_edge_surfaces_after_pop`.) -/
+theorem audit_false_names_bad_edge (lt : κ → κ → Bool) (a : Array (Elem κ)) (H : heapOrdered lt a = false) :
+    ∃ c, ∃ (hc : c < a.size), ∃ (_h0 : 0 < c), lt a[c].key (a[(c - 1) / 2]'(by omega)).key = true :=
+  bad_edge_of_not_heapOrdered lt a H
+
+/-- **the audits and the pop loop commute with a key abstraction that carries the order** — the dump crosses the
+protocol as ranks under the heap's own comparator; judging the rank vector is judging the dump. -/
+theorem audit_rank_invariant {κ' : Type} (lt : κ → κ → Bool) (lt' : κ' → κ' → Bool) (f : κ → κ')
+    (hf : ∀ x y, lt' (f x) (f y) = lt x y) (a : Array (Elem κ)) :
+    heapOrdered lt' (mapKey f a) = heapOrdered lt a ∧ topIsMin lt' (mapKey f a) = topIsMin lt a ∧
+      popAll lt' (mapKey f a) = (popAll lt a).map (fun e => ⟨e.h, f e.key⟩) :=
+  ⟨heapOrdered_map lt lt' f hf a, topIsMin_map lt lt' f hf a, popAll_map lt lt' f hf a⟩
+
+/-- **user discipline, positive**: changing the key behind a live handle in place and *then* calling
+`update(handle)` (that is `setKey`: `setKey_eq_poke_update`) leaves an array that passes the audit, whose top is a
+minimum, and whose contents changed in that one key only. -/
+theorem inplace_change_then_update_ok {lt : κ → κ → Bool} (h : SWO lt) (ops : List (Op κ)) (hd : Nat) (k : κ)
+    (hlive : ∃ e ∈ (reach lt ops).arr.toList, e.h = hd) :
+    let s' := ((reach lt ops).poke hd k).update lt hd
+    heapOrdered lt s'.arr = true ∧ topIsMin lt s'.arr = true ∧
+      s'.arr.toList.Perm ((reach lt ops).arr.toList.map (fun e => if e.h = hd then ⟨hd, k⟩ else e)) := by
+  intro s'
+  have e : s' = (reach lt ops).setKey lt hd k := (setKey_eq_poke_update lt _ hd k).symm
+  rw [e]
+  have hA := (heapOrdered_iff_inv lt _).mpr (setKey_inv h (reach lt ops) hd k (reachable_inv h ops).1)
+  exact ⟨hA, (audit_top_is_min h _ hA).1, update_changes_only_that_key h ops hd k hlive⟩
+
+/-- the heap `[1, 2, 3]` built through the API, and the same array after the key behind handle 2 was overwritten by 0 -/
+def h123 : Heap Nat := reach ltNat [.insert 1, .insert 2, .insert 3]
+def a123 : Array (Elem Nat) := #[⟨0, 1⟩, ⟨1, 2⟩, ⟨2, 3⟩]
+def a120 : Array (Elem Nat) := #[⟨0, 1⟩, ⟨1, 2⟩, ⟨2, 0⟩]
+
+theorem h123_arr : h123.arr = a123 := by
+  simp [h123, reach, Heap.run, Heap.step, Heap.insert, Heap.empty, siftUp, ltNat, a123]
+
+theorem findIdx_a123 : findIdx a123 2 = some 2 := by simp [findIdx, a123, List.findIdx?_cons]
+theorem findIdx_a120 : findIdx a120 2 = some 2 := by simp [findIdx, a120, List.findIdx?_cons]
+
+theorem poke_h123 : (h123.poke 2 0).arr = a120 := by
+  simp only [Heap.poke, h123_arr, pokeAll, findIdx_a123]
+  simp [a123, a120]
+
+/-- **user discipline, negative (kernel-checked witness)**: on the reachable heap `[1,2,3]` the user lowers the key
+behind handle 2 from 3 to 0 in place and does *not* call `update`: the audit fails and the top (key 1) is no longer
+a minimum of the contents (0 is in the heap); calling `update(handle)` afterwards repairs both. -/
+theorem inplace_change_without_update_breaks :
+    heapOrdered ltNat (h123.poke 2 0).arr = false ∧ topIsMin ltNat (h123.poke 2 0).arr = false ∧
+      ((h123.poke 2 0).update ltNat 2).arr.toList.map (·.key) = [0, 2, 1] ∧
+      heapOrdered ltNat ((h123.poke 2 0).update ltNat 2).arr = true := by
+  have hu : ((h123.poke 2 0).update ltNat 2).arr = #[⟨2, 0⟩, ⟨1, 2⟩, ⟨0, 1⟩] := by
+    unfold Heap.update
+    rw [poke_h123]
+    simp only [findIdx_a120]
+    simp [a120, siftUp, siftDown, ltNat]
+  rw [hu, poke_h123]
+  refine ⟨?_, ?_, ?_, ?_⟩
+  · simp [a120, heapOrdered, edgeOk, ltNat, List.range, List.range.loop]
+  · simp [a120, topIsMin, ltNat]
+  · simp
+  · simp [heapOrdered, edgeOk, ltNat, List.range, List.range.loop]
+
+/-- **updating before the key has its final value is no update**: `update(handle)` first, key change afterwards. -/
+theorem update_before_final_value_breaks :
+    topIsMin ltNat ((h123.update ltNat 2).poke 2 0).arr = false := by
+  have hu : (h123.update ltNat 2).arr = a123 := by
+    unfold Heap.update
+    rw [h123_arr]
+    simp only [findIdx_a123]
+    simp [a123, siftUp, siftDown, ltNat]
+  have hp : ((h123.update ltNat 2).poke 2 0).arr = a120 := by
+    simp only [Heap.poke, hu, pokeAll, findIdx_a123]
+    simp [a123, a120]
+  rw [hp]
+  simp [a120, topIsMin, ltNat]
+
+def latent : Array (Elem Nat) := #[⟨0, 1⟩, ⟨1, 5⟩, ⟨2, 2⟩, ⟨3, 3⟩]
+def latent2 : Array (Elem Nat) := #[⟨0, 1⟩, ⟨1, 5⟩, ⟨2, 6⟩, ⟨3, 3⟩, ⟨4, 9⟩]
+
+/-- **a false audit need not show in the pop order**: `[1,5,2,3]` has 3 under 5, yet its top is a minimum and it pops
+`1,2,3,5`.  So the oracle cannot be replaced by the audit, and an audit alarm alone is not a property failure. -/
+theorem audit_false_yet_pops_sorted :
+    heapOrdered ltNat latent = false ∧ topIsMin ltNat latent = true ∧
+      (popAll ltNat latent).map (·.key) = [1, 2, 3, 5] := by
+  refine ⟨?_, ?_, ?_⟩
+  · simp [latent, heapOrdered, edgeOk, ltNat, List.range, List.range.loop]
+  · simp [latent, topIsMin, ltNat]
+  · simp [latent, popAll, drain, removePos, siftUp, siftDown, ltNat]
+
+/-- **… but the damage is latent**: `[1,5,6,3,9]` (3 under 5) has a minimal top now; after one `pop` the top is 5 while
+3 is still in the heap, and the pop sequence `1,5,3,6,9` has an inversion. -/
+theorem bad_edge_surfaces_after_pop :
+    topIsMin ltNat latent2 = true ∧ topIsMin ltNat (removePos ltNat latent2 0) = false ∧
+      (popAll ltNat latent2).map (·.key) = [1, 5, 3, 6, 9] := by
+  refine ⟨?_, ?_, ?_⟩
+  · simp [latent2, topIsMin, ltNat]
+  · simp [latent2, topIsMin, removePos, siftUp, siftDown, ltNat]
+  · simp [latent2, popAll, drain, removePos, siftUp, siftDown, ltNat]
+
+/-- non-vacuity of `audit_pops_sorted` / `audit_top_is_min`: an array that was *not* built through the API passes -/
+example : heapOrdered ltNat #[⟨7, 1⟩, ⟨3, 4⟩, ⟨9, 1⟩, ⟨0, 4⟩] = true := by
+  simp [heapOrdered, edgeOk, ltNat, List.range, List.range.loop]
+
+/-- non-vacuity of `audit_rank_invariant`: ranks of the keys `10, 30, 30, 20` under `<` -/
+example : ∀ x y : Nat, ltNat (x / 10) (y / 10) = (fun a b : Nat => decide (a / 10 < b / 10)) x y := by
+  intro x y; rfl
+
+/-- non-vacuity of `inplace_change_then_update_ok`: handle 2 is live in `h123` -/
+example : ∃ e ∈ h123.arr.toList, e.h = 2 := by
+  rw [h123_arr]; exact ⟨⟨2, 3⟩, by simp [a123], rfl⟩
 
 end OmplModel.Props.C11
